@@ -41,7 +41,7 @@ def run(tier, deadline):
            "rule": "(1) one arena of M elements over {x, NUL}: all 2^M contents x every dest position and dmax x every src position x every slen, for 22 copy/concatenate/memory entry points in widths 1/2/4; R/W sets computed from the pre-call snapshot; zone oracle: disjoint => behaves as with disjoint buffers; written-intersects-read => overlap error with dest cleared; otherwise either; always: nothing outside dest written, arena never left, success implies the copy-through-temporary result; memmove family exact for every placement; every layout is run with object sizes unknown and with dest size = dmax / src size = rest of the arena; (2) long moves: memmove_s, memmove16_s, memmove32_s, wmemmove_s for every shift of src against dest in [-136,+136] bytes x every length up to the bound x every start alignment, compared with a copy through a temporary over a 4 KiB image; non-trivial = layouts where the dest object touches the elements read",
            "samples": ["strncpy_s M=8 content=0b00100101 dest@1 dmax=4 src@0 slen=2", "memmove32_s M=8 dest@2 dmax=5 src@0 slen=4", "wcscat_s M=8 content=0b01011011 dest@0 dmax=6 src@3"],
            "arena_elements": M, "zones": tot, "jobs_timed_out": len(timed_out)}
-    return common.finish("C07", tier, t0, cov, violations, ["identical pointers: unchanged dest string or the reference result both accepted", "memccpy_s and strcpyfldin_s are not judged here (their result semantics are known findings under C06)"], confirm=confirm, exhaustive=not timed_out)
+    return common.finish("C07", tier, t0, cov, violations, ["identical pointers: unchanged dest string or the reference result both accepted", "memccpy_s is not judged here (its result semantics are a known finding under C06)"], confirm=confirm, exhaustive=not timed_out)
 
 
 def replay(kv, quiet=False):
